@@ -321,6 +321,8 @@ def run_scenario(case, *, inspect=None, max_steps=400_000):
             elif at[0] == "fsall":
                 world.fsctl.fail_all_ops[at[1]] = f.get("errno", errno.EIO)
                 world.fsctl.only_label = f.get("session")
+            elif at[0] == "fsfrom":
+                world.fsctl.fail_label_from[f["session"]] = (at[1], f.get("errno", errno.EIO))
             elif at[0] == "fslabel":
                 world.fsctl.fail_label_at[(f["session"], at[1])] = f.get("errno", errno.EIO)
 
